@@ -256,18 +256,7 @@ fn run(
     }
 }
 
-fn main() {
-    let args: Vec<String> = std::env::args().collect();
-    let seed: u64 = arg(&args, "--seed").and_then(|s| s.parse().ok()).unwrap_or(1);
-    let scenarios: u64 = arg(&args, "--scenarios").and_then(|s| s.parse().ok()).unwrap_or(100);
-    let max_packets: usize = arg(&args, "--max-packets").and_then(|s| s.parse().ok()).unwrap_or(30);
-    let out = arg(&args, "--out").expect("--out");
-    let no_machines = args.iter().any(|a| a == "--no-machines");
-    std::panic::set_hook(Box::new(|_| {}));
-    let mut f = std::io::BufWriter::new(std::fs::File::create(&out).unwrap());
-    let mut g = grng(seed ^ 0x51b);
-    let (mut n_ev, mut n_act, mut n_panic, mut n_subus, mut n_written) = (0u64, 0u64, 0u64, 0u64, 0u64);
-    for id in 0..scenarios {
+fn random_scenario(g: &mut GRng, id: u64, seed: u64, max_packets: usize, no_machines: bool) -> Scenario {
         // trace
         let np = g.gen_range(1..=max_packets);
         let mut t = 0i64;
@@ -303,14 +292,14 @@ fn main() {
             }
             v
         };
-        let mc = gen_side(&mut g);
-        let ms = gen_side(&mut g);
+        let mc = gen_side(g);
+        let ms = gen_side(g);
         let fr = |g: &mut GRng| frac(gen_frac(g));
         let sc = Scenario {
             trace,
             delay_us,
             pps,
-            fracs: if no_machines { [0.0; 4] } else { [fr(&mut g), fr(&mut g), fr(&mut g), fr(&mut g)] },
+            fracs: if no_machines { [0.0; 4] } else { [fr(g), fr(g), fr(g), fr(g)] },
             seed: seed.wrapping_mul(31).wrapping_add(id),
             cont: g.gen_bool(0.4),
             max_it: *[400usize, 2000].get(g.gen_range(0..2)).unwrap(),
@@ -318,6 +307,191 @@ fn main() {
             mc,
             ms,
         };
+        sc
+}
+
+fn mk_pad(bypass: bool, replace: bool, timeout: i64) -> MAction {
+    let mut p = MAction::none();
+    p.kind = "SendPadding".into();
+    p.bypass = bypass;
+    p.replace = replace;
+    p.timeout = MDist::constant(timeout);
+    p
+}
+fn mk_block(bypass: bool, replace: bool, timeout: i64, duration: i64) -> MAction {
+    let mut a = MAction::none();
+    a.kind = "BlockOutgoing".into();
+    a.bypass = bypass;
+    a.replace = replace;
+    a.timeout = MDist::constant(timeout);
+    a.duration = MDist::constant(duration);
+    a
+}
+fn mk_timer(replace: bool, duration: i64) -> MAction {
+    let mut t = MAction::none();
+    t.kind = "UpdateTimer".into();
+    t.replace = replace;
+    t.duration = MDist::constant(duration);
+    t
+}
+
+/// small-scope enumeration of machine templates on the real simulator: every
+/// combination of flags / timeouts / durations of one or two blocking
+/// machines and a padding machine, and of two or three timer machines, on
+/// short traces, on either side, with and without continuing after the last
+/// normal packet
+fn directed(seed: u64) -> Vec<Scenario> {
+    let mut v = Vec::new();
+    let traces: [&[i64]; 4] = [&[0], &[0, 20], &[0, 20, 40], &[0, 0, 500]];
+    let bools = [false, true];
+    let mut push = |machines: Vec<MMachine>, tr: &[i64], client: bool, cont: bool, delay: u64| {
+        let id = v.len() as u64;
+        v.push(Scenario {
+            trace: tr.iter().map(|t| (*t + if client { 0 } else { delay as i64 }, client)).collect(),
+            delay_us: delay,
+            pps: None,
+            mc: if client { machines.clone() } else { vec![] },
+            ms: if client { vec![] } else { machines },
+            fracs: [0.0; 4],
+            seed: seed.wrapping_add(id),
+            cont,
+            max_it: 300,
+            mtl: 7,
+        });
+    };
+    for bb in bools {
+        for br in bools {
+            for pb in bools {
+                for pr in bools {
+                    for bt in [0i64, 10] {
+                        for bd in [0i64, 50, 300] {
+                            for pt in [5i64, 30, 100] {
+                                for (ti, tr) in traces.iter().enumerate() {
+                                    for cont in bools {
+                                        let client = (ti + bt as usize + pt as usize) % 2 == 0;
+                                        let ms = vec![
+                                            one_shot(mk_block(bb, br, bt, bd), &["NormalSent"], false),
+                                            one_shot(mk_pad(pb, pr, pt), &["NormalSent", "BlockingBegin"], true),
+                                        ];
+                                        push(ms, tr, client, cont, 10);
+                                    }
+                                }
+                            }
+                        }
+                    }
+                }
+            }
+        }
+    }
+    // two blocking machines with coinciding or overlapping periods and a bypass padding
+    for b1 in bools {
+        for b2 in bools {
+            for r2 in bools {
+                for (t1, d1, t2, d2) in [(10i64, 200i64, 20i64, 300i64), (10, 200, 10, 50), (0, 100, 100, 100), (10, 300, 20, 0)] {
+                    for pt in [5i64, 60, 150] {
+                        for client in bools {
+                            let ms = vec![
+                                one_shot(mk_block(b1, false, t1, d1), &["NormalSent"], false),
+                                one_shot(mk_block(b2, r2, t2, d2), &["NormalSent"], false),
+                                one_shot(mk_pad(true, pt == 60, pt), &["NormalSent", "BlockingBegin"], true),
+                            ];
+                            push(ms, &[0, 30], client, true, 1000);
+                        }
+                    }
+                }
+            }
+        }
+    }
+    // timer machines whose expiries coincide, restart, or are cancelled
+    for r1 in bools {
+        for r2 in bools {
+            for (d1, d2, d3) in [(7i64, 7i64, 70i64), (0, 0, 7), (70, 7, 0), (7, 70, 70)] {
+                for third in bools {
+                    for client in bools {
+                        let mut ms = vec![
+                            one_shot(mk_timer(r1, d1), &["NormalSent", "TimerEnd"], true),
+                            one_shot(mk_timer(r2, d2), &["NormalSent"], true),
+                        ];
+                        if third {
+                            ms.push(one_shot(mk_timer(false, d3), &["NormalSent", "TimerBegin"], true));
+                        } else {
+                            let mut c = MAction::none();
+                            c.kind = "Cancel".into();
+                            c.timer = "Internal".into();
+                            ms.push(one_shot(c, &["TunnelSent"], true));
+                        }
+                        push(ms, &[0, 20, 20], client, true, 10);
+                    }
+                }
+            }
+        }
+    }
+    // machines on both sides: a bypassable block at the client, a non-bypassable block and a
+    // bypass padding at the server (and the mirror image)
+    for cb in bools {
+        for sb in bools {
+            for pr in bools {
+                for cd in [50i64, 300] {
+                    for pt in [5i64, 30, 100] {
+                        for mirror in bools {
+                            let a = vec![one_shot(mk_block(cb, false, 0, cd), &["NormalSent", "NormalRecv"], false)];
+                            let b = vec![
+                                one_shot(mk_block(sb, false, 10, 300), &["NormalSent"], false),
+                                one_shot(mk_pad(true, pr, pt), &["NormalSent", "BlockingBegin"], true),
+                            ];
+                            let id = v.len() as u64;
+                            v.push(Scenario {
+                                trace: vec![(0, true), (10, false), (30, !mirror), (40, mirror)],
+                                delay_us: 10,
+                                pps: None,
+                                mc: if mirror { b.clone() } else { a.clone() },
+                                ms: if mirror { a } else { b },
+                                fracs: [0.0; 4],
+                                seed: seed.wrapping_add(id),
+                                cont: true,
+                                max_it: 300,
+                                mtl: 7,
+                            });
+                        }
+                    }
+                }
+            }
+        }
+    }
+    v
+}
+
+fn main() {
+    let args: Vec<String> = std::env::args().collect();
+    let seed: u64 = arg(&args, "--seed").and_then(|s| s.parse().ok()).unwrap_or(1);
+    let scenarios: u64 = arg(&args, "--scenarios").and_then(|s| s.parse().ok()).unwrap_or(100);
+    let max_packets: usize = arg(&args, "--max-packets").and_then(|s| s.parse().ok()).unwrap_or(30);
+    let out = arg(&args, "--out").expect("--out");
+    let no_machines = args.iter().any(|a| a == "--no-machines");
+    // --directed K: also run every K-th scenario of the enumerated template families (light runs)
+    let stride: usize = arg(&args, "--directed").and_then(|s| s.parse().ok()).unwrap_or(0);
+    std::panic::set_hook(Box::new(|_| {}));
+    let mut f = std::io::BufWriter::new(std::fs::File::create(&out).unwrap());
+    let mut g = grng(seed ^ 0x51b);
+    let (mut n_ev, mut n_act, mut n_panic, mut n_subus, mut n_written) = (0u64, 0u64, 0u64, 0u64, 0u64);
+    let mut list: Vec<(Scenario, bool)> = Vec::new();
+    for id in 0..scenarios {
+        list.push((random_scenario(&mut g, id, seed, max_packets, no_machines), false));
+    }
+    let mut n_directed = 0u64;
+    if stride > 0 {
+        for (i, sc) in directed(seed).into_iter().enumerate() {
+            // hash-based sub-sampling (a plain stride would align with the innermost loops)
+            let h = (i as u64).wrapping_mul(0x9E37_79B9_7F4A_7C15).wrapping_add(seed.wrapping_mul(0x51_7CC1)) >> 33;
+            if h % stride as u64 == 0 {
+                list.push((sc, true));
+                n_directed += 1;
+            }
+        }
+    }
+    for (id, (sc, light)) in list.into_iter().enumerate() {
+        let id = id as u64;
+        let light = light;
         let rmc: Vec<Machine> = sc.mc.iter().map(|m| m.to_machine_unchecked()).collect();
         let rms: Vec<Machine> = sc.ms.iter().map(|m| m.to_machine_unchecked()).collect();
         let mut lines = vec![
@@ -342,6 +516,7 @@ fn main() {
                 lines.extend(hook);
                 lines.push(json!({"k": "out", "evs": full}));
                 // the same run again: reproducible?
+                if !light {
                 match run(&sc, &rmc, &rms, false, false, 0, false) {
                     Err(p) => lines.push(json!({"k": "panic", "msg": p})),
                     Ok((_, again, _)) => lines.push(json!({"k": "rerun", "same": again == full})),
@@ -363,8 +538,9 @@ fn main() {
                                           o.windows(2).all(|w| w[0]["t"].as_i64() <= w[1]["t"].as_i64())}));
                     }
                 }
+                }
                 // machine-less: the simple entry point too
-                if sc.mc.is_empty() && sc.ms.is_empty() && sc.pps.is_none() {
+                if !light && sc.mc.is_empty() && sc.ms.is_empty() && sc.pps.is_none() {
                     for ona in [false, true] {
                         let network = Network::new(Duration::from_micros(sc.delay_us), None);
                         let mut sq = parse_trace(&trace_string(&sc.trace), network);
@@ -397,6 +573,6 @@ fn main() {
     println!(
         "{}",
         json!({"scenarios": scenarios, "written": n_written, "events": n_ev, "actions": n_act,
-               "panics": n_panic, "sub_microsecond_skipped": n_subus})
+               "panics": n_panic, "sub_microsecond_skipped": n_subus, "directed": n_directed})
     );
 }
